@@ -35,6 +35,9 @@ using namespace Tins;
 typedef std::vector<uint8_t> Bytes;
 
 // keep this list identical to harness/pdu_types.cpp (tools/families/c14.py cross-checks it against the headers)
+// payload sizes of replies: mostly small, now and then a size at which a length field has a zero low octet / is at its
+// usual maximum (the reply's payload is "filled freely")
+static size_t paylen(vh::Rng& rng) { static const size_t B[] = {248, 504, 760, 1016, 247, 255, 256, 1472}; return rng.below(4) == 0 ? B[rng.below(8)] : (size_t)rng.range(1, 40); }
 #define CONCRETE(X) X(SNAP) X(DHCPv6) X(LLC) X(IPSecAH) X(IPSecESP) X(SLL) X(Loopback) X(ARP) X(BootP) X(RawPDU) X(VXLAN) X(EthernetII) X(DNS) X(DHCP) X(IP) X(Dot3) X(RC4EAPOL) X(RSNEAPOL) X(PPI) X(PKTAP) X(PPPoE) X(RadioTap) X(STP) X(TCP) X(ICMPv6) X(Dot11) X(Dot11RTS) X(Dot11PSPoll) X(Dot11CFEnd) X(Dot11EndCFAck) X(Dot11Ack) X(Dot11BlockAckRequest) X(Dot11BlockAck) X(Dot11ProbeRequest) X(Dot11ProbeResponse) X(Dot11Beacon) X(Dot11Disassoc) X(Dot11AssocRequest) X(Dot11AssocResponse) X(Dot11ReAssocRequest) X(Dot11ReAssocResponse) X(Dot11Data) X(Dot11QoSData) X(Dot11Authentication) X(Dot11Deauthentication) X(MPLS) X(IPv6) X(Dot1Q) X(ICMP) X(RTP) X(UDP) X(PDUCacher<IP>) X(PDUCacher<TCP>) X(PDUCacher<EthernetII>) X(PDUCacher<Dot11Data>) X(PDUCacher<RawPDU>)
 
 // ------------------------------------------------------------------------------------------------ concretisation
@@ -110,10 +113,10 @@ static PDU* build(const vh::Json& a, const Table& T, vh::Rng& rng, const std::st
         t->seq(rng.u32()); t->ack_seq(rng.u32()); t->window((uint16_t)rng.below(65536)); t->flags((small_uint<12>)(uint16_t)FL[rng.below(7)]);
         if (rng.below(3) == 0) t->mss((uint16_t)rng.below(65536));        // header length is the reply's own business
         tail->inner_pdu(t); tail = t;
-        if (rng.coin()) { Bytes p = rnd(rng, rng.range(1, 40)); tail->inner_pdu(new RawPDU(p.begin(), p.end())); }
+        if (rng.coin()) { Bytes p = rnd(rng, paylen(rng)); tail->inner_pdu(new RawPDU(p.begin(), p.end())); }
     } else if (upper == "udp") {
         UDP* u = new UDP(T.u16(P16, a["dport"].num()), T.u16(P16, a["sport"].num())); tail->inner_pdu(u); tail = u;
-        Bytes p = rnd(rng, rng.range(1, 40)); tail->inner_pdu(new RawPDU(p.begin(), p.end()));          // "UDP with a payload"
+        Bytes p = rnd(rng, paylen(rng)); tail->inner_pdu(new RawPDU(p.begin(), p.end()));          // "UDP with a payload"
     } else if (upper == "dns") {
         UDP* u = new UDP(T.u16(P16, a["dport"].num()), T.u16(P16, a["sport"].num())); tail->inner_pdu(u); tail = u;
         DNS* d = new DNS(); d->id(T.u16(P16, a["dnsid"].num()));      // questions / answers are added by fill_dns
